@@ -312,6 +312,17 @@ func (e *Engine) installStubs() {
 	// ---------- sync ----------
 	S["(*sync.Mutex).Lock"] = func(e *Engine, st *State, c *callInfo, a []Value) Value {
 		p := a[0].(*PtrV)
+		// interference hook: before the lock is taken any other operation may run
+		if f, ok := st.ghost["user:onlock"]; ok && !e.inHook {
+			if fv, isF := f.(*FuncV); isF {
+				e.inHook = true
+				w := e.watchLocks
+				e.watchLocks = false
+				e.callback(st, c, fv, nil)
+				e.watchLocks = w
+				e.inHook = false
+			}
+		}
 		held := e.load(st, fieldPtr(p, 0), c.site).(*Term)
 		cnt := e.ghostTerm(st, "locks.held", func() *Term { return BVu(0, 64) })
 		e.oblige(st, "lock", "lock-not-held@"+c.site, c.site, Eq(held, BVu(0, 32)))
